@@ -12,6 +12,11 @@ mod value;
 
 use crate::CodeMap;
 
+#[cfg(json_syntax_verif)]
+mod verif {
+	include!(concat!(env!("JSON_SYNTAX_VERIF_DIR"), "/incrate/parse.rs"));
+}
+
 /// Parser options.
 #[derive(Clone, Copy, PartialEq, Eq, PartialOrd, Ord, Hash, Debug)]
 pub struct Options {
